@@ -150,7 +150,9 @@ enum Enc { Own, Rustrtc }
 #[derive(Clone, Copy, Debug, PartialEq)]
 enum TxRef { Random, Live(usize), Stale(usize) }
 #[derive(Clone, Debug, PartialEq)]
-enum RawKind { Indication, Truncated, LenMismatch, UnknownMethod, RandomStunish(Vec<u8>), Dtls, Rtp, OneByte(u8) }
+enum RawKind { Indication, Truncated, LenMismatch, UnknownMethod, RandomStunish(Vec<u8>), Dtls, Rtp, OneByte(u8),
+    /// the agent's own captured check sent back verbatim (hair-pinning NAT / reflector / replay), or as an indication with the same transaction id
+    Echo { cap: usize, indication: bool } }
 
 #[derive(Clone, Debug)]
 enum HOp {
@@ -248,7 +250,7 @@ impl TcpCli {
     }
 }
 
-struct Captured { tx: [u8; 12], sock: usize, nom: bool, round: i64, answered: bool }
+struct Captured { tx: [u8; 12], sock: usize, nom: bool, round: i64, answered: bool, bytes: Vec<u8>, at: Instant, got_response: bool }
 
 struct Ran {
     terms: Vec<String>,          // one list of model ops per harness operation
@@ -336,6 +338,8 @@ async fn run_case(spec: &Spec, seed: u64) -> Ran {
     let mut captured: Vec<Captured> = vec![];
     let mut finished: Vec<(i64, bool)> = vec![];
     let mut prev = observe(&t, vec![]);
+    let mut routes: std::collections::HashMap<SocketAddr, bool> = std::collections::HashMap::new();
+    let case_start = Instant::now();
     let local_term = local_cand_term(&lc);
     let mut unsolicited_seen = false;
     let mut baseline_after_unsolicited: Option<Obs> = None;
@@ -345,6 +349,8 @@ async fn run_case(spec: &Spec, seed: u64) -> Ran {
         let term: String;
         let mut desc = json!(format!("{:?}", op));
         let mut req_view: Option<ReqView> = None;
+        let mut udp_pkt: Option<(SocketAddr, Facts)> = None;      // a datagram sent to the agent's UDP socket by this operation
+        let mut must_honour: Option<String> = None;             // a genuine answer to an outstanding transaction
         match op {
             HOp::Start => {
                 if let Err(e) = t.start(rpar.clone()) { ran.harness_err = Some(format!("start: {e}")); break; }
@@ -462,6 +468,7 @@ async fn run_case(spec: &Spec, seed: u64) -> Ran {
                     }
                 }
                 tokio::time::sleep(Duration::from_millis(1)).await;
+                if via_tcp.is_none() { udp_pkt = Some((src, f.clone())); }
                 term = format!("Pkt {} {} {} {}", if via_tcp.is_some() { "KTcp" } else { "KUdp" }, addr_term(&dst_local), addr_term(&src), pkt_term(&f));
                 desc = json!({"req": {"from": src.to_string(), "ice_tcp_stream": via_tcp, "user": format!("{:?}", user), "mi": format!("{:?}", mi), "use_candidate": uc,
                     "priority": prio, "method": method, "encoder": format!("{:?}", enc), "fingerprint": fp,
@@ -490,6 +497,19 @@ async fn run_case(spec: &Spec, seed: u64) -> Ran {
                 }
                 let bytes = build_stun(ty, &txb, &attrs, if *with_mi { Some(rpar.password.as_bytes()) } else { None }, false, true);
                 let f = facts(&bytes, &want_user, &lpar.password);
+                // the first response with the id of a still outstanding check, a Binding success, sent well inside the
+                // transaction's lifetime: whatever other datagrams arrived in between, it must be honoured
+                if let TxRef::Live(i) = tx {
+                    let c = &mut captured[*i];
+                    let age = c.at.elapsed();
+                    let limit = Duration::from_millis(if c.nom { NOM_TIMEOUT_MS } else { STUN_TIMEOUT_MS } * 2 / 3);
+                    if !c.got_response && *succ && *method == 1 && age < limit {
+                        must_honour = Some(format!("Binding success response for the agent's own outstanding {} (transaction captured {} ms earlier on {})",
+                            if c.nom { "nomination check" } else { "connectivity check" }, age.as_millis(), socks[c.sock].addr));
+                    }
+                    c.got_response = true;
+                }
+                udp_pkt = Some((src, f.clone()));
                 socks[*sock].s.send_to(&bytes, agent_addr).await.ok();
                 tokio::time::sleep(Duration::from_millis(8)).await;
                 let mut t_ = format!("Pkt KUdp {} {} {}", addr_term(&agent_addr), addr_term(&src), pkt_term(&f));
@@ -519,6 +539,10 @@ async fn run_case(spec: &Spec, seed: u64) -> Ran {
                     RawKind::Dtls => { let mut b = vec![22u8, 254, 253]; b.extend_from_slice(&r.bytes(20)); b }
                     RawKind::Rtp => { let mut b = vec![0x80u8, 96]; b.extend_from_slice(&r.bytes(20)); b }
                     RawKind::OneByte(x) => vec![*x],
+                    RawKind::Echo { cap, indication } => match captured.get(*cap) {
+                        Some(c) => { let mut b = c.bytes.clone(); if *indication { b[0] = 0x00; b[1] = 0x11; } b }
+                        None => { ran.harness_err = Some("nothing captured to echo".into()); break; }
+                    },
                 };
                 let f = facts(&bytes, &want_user, &lpar.password);
                 let dec_ok = StunMessage::decode(&bytes).is_ok();
@@ -536,6 +560,7 @@ async fn run_case(spec: &Spec, seed: u64) -> Ran {
                     let (b, from) = &sk.log[i];
                     if *from == agent_addr && b.len() >= 20 && b[0] == 0x01 && b[1] == 0x01 && tx_num(&b[8..20]) == f.tx { sends.push((src, f.tx)); }
                 }
+                udp_pkt = Some((src, f.clone()));
                 term = format!("Pkt KUdp {} {} {}", addr_term(&agent_addr), addr_term(&src), pkt_term(&f));
                 desc = json!({"raw": {"from": src.to_string(), "kind": format!("{:?}", kind).chars().take(40).collect::<String>(),
                     "bytes": bytes.iter().map(|b| format!("{:02x}", b)).collect::<String>()}});
@@ -547,7 +572,7 @@ async fn run_case(spec: &Spec, seed: u64) -> Ran {
             }
             HOp::Capture { sock, round, nom } => {
                 let deadline = Instant::now() + Duration::from_millis(250);
-                let mut found: Option<([u8; 12], bool)> = None;
+                let mut found: Option<([u8; 12], bool, Vec<u8>)> = None;
                 let mut spins = 0;
                 while (Instant::now() < deadline || spins < 60) && found.is_none() {
                     spins += 1;
@@ -563,14 +588,14 @@ async fn run_case(spec: &Spec, seed: u64) -> Ran {
                             let uc = attrs.iter().any(|(t, _, _)| *t == 0x0025);
                             // connectivity checks carry ICE-CONTROLLING / ICE-CONTROLLED, keepalives do not
                             if !attrs.iter().any(|(t, _, _)| *t == 0x802A || *t == 0x8029) || uc != *nom { continue; }
-                            found = Some((txb, uc));
+                            found = Some((txb, uc, b.clone()));
                             break;
                         }
                     }
                     if found.is_none() { tokio::time::sleep(Duration::from_millis(2)).await; }
                 }
-                let Some((txb, uc)) = found else { ran.harness_err = Some(format!("no outgoing Binding request captured on socket {}", sock)); break; };
-                captured.push(Captured { tx: txb, sock: *sock, nom: uc, round: *round, answered: false });
+                let Some((txb, uc, cbytes)) = found else { ran.harness_err = Some(format!("no outgoing Binding request captured on socket {}", sock)); break; };
+                captured.push(Captured { tx: txb, sock: *sock, nom: uc, round: *round, answered: false, bytes: cbytes, at: Instant::now(), got_response: false });
                 let rc = remote_cands.get(sock).cloned();
                 let rterm = match rc {
                     Some(c) => cand_term(&c.address, &c.address, typ_code(c.typ), c.priority, false),
@@ -603,7 +628,41 @@ async fn run_case(spec: &Spec, seed: u64) -> Ran {
         }
         let cur = observe(&t, sends);
         // ------------------------------------------------------------ direct property oracle
-        oracle_step(spec, op, req_view.as_ref(), &prev, &cur, &mut ran.fail, &mut ran.known);
+        // (a) shared-UDP demux (shared_udp.rs module doc): a datagram is routed to a session by the ufrag before ':' in the
+        //     USERNAME of a Binding request, else by the recorded source address; nothing else may reach the session
+        let mut demux_dropped = false;
+        if spec.mux {
+            if let Some((src, f)) = &udp_pkt {
+                let names = f.b0 < 2 && f.wf && (f.ty & 0x3EEF) == 1 && (f.ty & 0x0110) == 0 && f.ufrag != 0;
+                let routed = if names { routes.insert(*src, f.ufrag == 1); f.ufrag == 1 } else { routes.get(src).copied().unwrap_or(false) };
+                // (the agent's keepalives record the selected remote as well: they start 1 s after creation)
+                let maybe_keepalive = case_start.elapsed() > Duration::from_millis(900) && prev.selected.as_ref().map(|(_, r)| r.addr == *src).unwrap_or(false);
+                if !routed && !maybe_keepalive {
+                    demux_dropped = true;
+                    if (!cur.sends.is_empty() || !protected_eq(&prev, &cur)) && ran.fail.is_none() {
+                        ran.fail = Some(format!("shared-UDP demux delivered a datagram from {} to the session although it carries no USERNAME naming the session's ufrag and its source address was never recorded for it (recorded: {:?}): {} -> {}",
+                            src, routes.iter().filter(|(_, v)| **v).map(|(a, _)| a.to_string()).collect::<Vec<_>>(), obs_json(&prev), obs_json(&cur)));
+                    }
+                }
+            }
+        }
+        // (b) an outstanding transaction is consumed by its response only
+        if let (Some(what), false) = (&must_honour, demux_dropped) {
+            let honoured = match (spec.role, op) {
+                (_, HOp::Resp { tx: TxRef::Live(i), .. }) if captured[*i].nom => cur.nom == 1 || !finished.contains(&(captured[*i].round, true)),
+                (IceRole::Controlled, HOp::Resp { tx: TxRef::Live(i), .. }) =>
+                    prev.nom != 0 || prev.selected.is_some() || !finished.contains(&(captured[*i].round, false))
+                    || cur.selected.as_ref().map(|(_, r)| r.addr == socks[captured[*i].sock].addr).unwrap_or(false),
+                (IceRole::Controlling, HOp::Resp { tx: TxRef::Live(i), .. }) =>
+                    prev.state != 1 || !finished.contains(&(captured[*i].round, false)) || cur.state == 2,
+                _ => true,
+            };
+            if !honoured && ran.fail.is_none() {
+                ran.fail = Some(format!("the {} was not honoured: the transaction had been consumed by an earlier datagram that is not a response to it (history: {}); {} -> {}",
+                    what, ran.descs.iter().map(|d| d["op"].to_string().chars().take(90).collect::<String>()).collect::<Vec<_>>().join(" | "), obs_json(&prev), obs_json(&cur)));
+            }
+        }
+        if !demux_dropped { oracle_step(spec, op, req_view.as_ref(), &prev, &cur, &mut ran.fail, &mut ran.known); }
         if unsolicited_seen && baseline_after_unsolicited.is_none() { baseline_after_unsolicited = Some(prev.clone()); }
         if !protected_eq(&prev, &cur) { ran.nontrivial = true; }
         ran.terms.push(format!("[{}]", term));
@@ -745,6 +804,25 @@ fn corpus() -> Vec<Spec> {
         ops: vec![HOp::AddRemote { sock: 0, prio: HOST_PRIO, typ: 0 }, HOp::Start, HOp::Capture { sock: 0, round: 1, nom: false },
                   HOp::Resp { sock: 2, succ: true, tx: TxRef::Random, method: 1, with_mi: false },
                   HOp::Resp { sock: 2, succ: true, tx: TxRef::Live(0), method: 1, with_mi: false }, HOp::AwaitRound { round: 1 }] });
+    // the agent's own check looped back (hair-pinning NAT / reflector / replay) as a request and as an indication with the
+    // same transaction id must not consume the transaction: the genuine response that follows is honoured
+    for (role, from) in [(IceRole::Controlled, 0usize), (IceRole::Controlled, 2), (IceRole::Controlling, 0)] {
+        let mut ops = vec![HOp::AddRemote { sock: 0, prio: HOST_PRIO, typ: 0 }, HOp::Start, HOp::Capture { sock: 0, round: 1, nom: false },
+            HOp::Raw { sock: from, kind: RawKind::Echo { cap: 0, indication: false } },
+            HOp::Raw { sock: from, kind: RawKind::Echo { cap: 0, indication: true } },
+            HOp::Resp { sock: 0, succ: true, tx: TxRef::Live(0), method: 1, with_mi: true }, HOp::AwaitRound { round: 1 }];
+        if role == IceRole::Controlling {
+            ops.extend([HOp::Capture { sock: 0, round: 1, nom: true }, HOp::Raw { sock: 0, kind: RawKind::Echo { cap: 1, indication: false } },
+                HOp::Resp { sock: 0, succ: true, tx: TxRef::Live(1), method: 1, with_mi: true }, HOp::AwaitNom { round: 1 }]);
+        }
+        v.push(Spec { role, latching: false, mux: false, tcp: false, kind: "corpus".into(), ops });
+    }
+    // shared-UDP mux: a legitimate peer's route is recorded, then a bare request (no USERNAME) from the same ip, another port
+    for uc in [false, true] {
+        v.push(Spec { role: IceRole::Controlled, latching: false, mux: true, tcp: false, kind: "corpus".into(),
+            ops: vec![HOp::AddRemote { sock: 0, prio: HOST_PRIO, typ: 0 }, HOp::Start, req(0, UserKind::Right, MiKind::Right, false),
+                      req(2, UserKind::None, MiKind::None, uc), HOp::Raw { sock: 2, kind: RawKind::Dtls }] });
+    }
     // error response consumes the transaction: a later success with the same id is not honoured
     v.push(Spec { role: IceRole::Controlled, latching: false, mux: false, tcp: false, kind: "corpus".into(),
         ops: vec![HOp::AddRemote { sock: 0, prio: HOST_PRIO, typ: 0 }, HOp::Start, HOp::Capture { sock: 0, round: 1, nom: false },
@@ -841,6 +919,23 @@ fn mux_family() -> Vec<Spec> {
                 } } }
             }
         }
+        // a legitimate peer's route is recorded (from socket 0); then datagrams without a routable USERNAME from the same ip,
+        // other ports (sockets 2 and 1): the demux must drop them
+        for pre in [Pre::New, Pre::CheckingWithPeers, Pre::ConnectedSelected] {
+            for (lu, lm) in [(UserKind::Right, MiKind::Right), (UserKind::WrongRemote, MiKind::None)] {
+                for uc in [false, true] {
+                    let mut ops = prelude(pre, HOST_PRIO, HOST_PRIO - 256);
+                    ops.push(req(0, lu, lm, false));
+                    ops.push(req(2, UserKind::None, MiKind::None, uc));
+                    ops.push(req(1, UserKind::NoColon, MiKind::Right, uc));
+                    ops.push(HOp::Raw { sock: 2, kind: RawKind::Dtls });
+                    ops.push(HOp::Resp { sock: 2, succ: true, tx: TxRef::Random, method: 1, with_mi: false });
+                    ops.push(req(2, UserKind::WrongBoth, MiKind::None, uc)); // names another session: recorded as not ours
+                    ops.push(req(2, UserKind::None, MiKind::None, uc));
+                    v.push(Spec { role, latching: false, mux: true, tcp: false, ops, kind: "mux".into() });
+                }
+            }
+        }
         // responses to the agent's own check reach it only from a recorded source
         for map_first in [false, true] {
             let mut ops = vec![HOp::AddRemote { sock: 0, prio: HOST_PRIO, typ: 0 }, HOp::Start, HOp::Capture { sock: 0, round: 1, nom: false }];
@@ -932,7 +1027,8 @@ fn response_scenarios(r: &mut Rng, n: usize) -> Vec<Spec> {
         let mut ops = vec![HOp::AddRemote { sock: 0, prio: HOST_PRIO, typ: 0 }, HOp::Start, HOp::Capture { sock: 0, round: 1, nom: false }];
         // junk before the live answer
         for _ in 0..r.below(3) {
-            ops.push(match r.below(3) {
+            ops.push(match r.below(5) {
+                3 | 4 => HOp::Raw { sock: *r.pick(&[0usize, 0, 2]), kind: RawKind::Echo { cap: 0, indication: r.chance(1, 3) } },
                 0 => HOp::Resp { sock: r.below(3) as usize, succ: r.chance(1, 2), tx: TxRef::Random, method: 1, with_mi: r.chance(1, 2) },
                 1 => random_raw(r, 3),
                 _ => req(1 + r.below(2) as usize, pick_user(r), pick_mi(r), false),
@@ -953,6 +1049,7 @@ fn response_scenarios(r: &mut Rng, n: usize) -> Vec<Spec> {
         let answered_ok = matches!(variant, 0 | 1 | 4);
         if role == IceRole::Controlling && answered_ok {
             ops.push(HOp::Capture { sock: 0, round: 1, nom: true });
+            if r.chance(1, 2) { ops.push(HOp::Raw { sock: 0, kind: RawKind::Echo { cap: 1, indication: r.chance(1, 3) } }); }
             match r.below(3) {
                 0 => ops.push(HOp::Resp { sock: from, succ: true, tx: TxRef::Live(1), method: 1, with_mi: false }),
                 1 => ops.push(HOp::Resp { sock: from, succ: true, tx: TxRef::Stale(0), method: 1, with_mi: false }),
